@@ -117,6 +117,20 @@ let () = iter_lines (fun line ->
                 print_endline ("x" ^ String.concat "" (List.map (fun (c, d) ->
                     Printf.sprintf " m %d %d %s ;" (int_of_z c) (zlen d) (fnv d)) segs)))
        | _ -> print_endline "err")
+  | [ "copyh"; hist; sopt; eopt; wj; wa; hx ] ->
+      (* hist: comma list of s<opt> (earlier jcopy_markers_setup) | h<savemarkers> (earlier tj3DecompressHeader) *)
+      let steps = List.map (fun it ->
+          let v = z_of_int (int_of_string (String.sub it 1 (String.length it - 1))) in
+          if it.[0] = 's' then HSetup v else HTjHeader v) (split_on ',' hist) in
+      (match unhex hx with
+       | _ :: _ :: rest ->
+           (match copy_pipeline_from (history_cfg steps) (z_of_int (int_of_string sopt)) (z_of_int (int_of_string eopt))
+                    (wj = "1") (wa = "1") (nat_of_int 100000) rest with
+            | None -> print_endline "err"
+            | Some segs ->
+                print_endline ("x" ^ String.concat "" (List.map (fun (c, d) ->
+                    Printf.sprintf " m %d %d %s ;" (int_of_z c) (zlen d) (fnv d)) segs)))
+       | _ -> print_endline "err")
   | [ "iccms"; ms ] ->
       (* marker list given directly: code:hex,...  (original_length = data length) *)
       let l = List.map (fun (c, d) -> { sm_code = c; sm_orig = z_of_int (zlen d); sm_data = d }) (segs_of ms) in
